@@ -30,7 +30,27 @@ type DiffCase struct {
 	// same server (Op.Inst 1), compared with an in-memory cache of its own.
 	Second string `json:"second,omitempty"`
 	Ops    []Op   `json:"ops"`
+	// TTL2: default ttl of the second pair of caches (0 = the same as TTL)
+	TTL2 int64 `json:"ttl2,omitempty"`
+	// Names: the kind of name each key carries in every cache of the case (see specialNames)
+	Names []int `json:"names,omitempty"`
+	// Decoy: bystander instances (a redis-backed one on the same server under the
+	// prefix "zz:" and an in-memory one) built before and after the caches under
+	// test, with a default ttl and a size of their own
+	Decoy *Decoy `json:"decoy,omitempty"`
 }
+
+func (c DiffCase) ttls() []int64 {
+	if c.Second == "" {
+		return []int64{c.TTL}
+	}
+	if c.TTL2 == 0 {
+		return []int64{c.TTL, c.TTL}
+	}
+	return []int64{c.TTL, c.TTL2}
+}
+
+const decoyPrefix = "zz:"
 
 const diffMaxKeys = 16
 
@@ -290,7 +310,11 @@ func (r *ref) apply(o Op) (expect string, classes []string) {
 // that extends the first cache's prefix (the first cache's Clear legitimately
 // covers those keys, the second's must leave the first cache alone) and a prefix
 // that the first cache's prefix extends (the other way round).
-var secondPrefixes = []string{"", "", "", "", "d05:", "c05:sub:", "c0"}
+//
+// A prefix is a string, not a pattern: prefixes with the characters redis' key patterns give a meaning to ('*', '?',
+// '[', ']', '\\') are prefixes like any other - "g[a]:" owns the keys that start with those five characters, "c0?:"
+// does not own the keys of "c05:".
+var secondPrefixes = []string{"", "", "", "", "", "", "d05:", "c05:sub:", "c0", "g[a]:", "c0?:", "c*", "q\\:", "[c]05:", "c05:[", "c05:*"}
 
 func GenDiff(t *rapid.T) DiffCase {
 	c := DiffCase{
@@ -304,9 +328,18 @@ func GenDiff(t *rapid.T) DiffCase {
 		},
 		Second: rapid.SampledFrom(secondPrefixes).Draw(t, "second"),
 	}
-	rs := refs{newRef(c.TTL)}
 	if c.Second != "" {
-		rs = append(rs, newRef(c.TTL))
+		// the two pairs differ in their default ttl two times out of three
+		c.TTL2 = rapid.SampledFrom([]int64{0, 1, 2, 3, 7, 10, 100}).Draw(t, "ttl2")
+		if c.TTL2 == c.TTL {
+			c.TTL2 = 0
+		}
+	}
+	c.Names = genNames(t, c.Keys)
+	c.Decoy = genDecoy(t, []int64{1, 2, 5, 7, 100, 86400})
+	var rs refs
+	for _, ttl := range c.ttls() {
+		rs = append(rs, newRef(ttl))
 	}
 	for _, p := range genProtos(t, genCfg{keys: c.Keys, diff: true, insts: len(rs)}) {
 		for _, o := range p.Ops {
@@ -356,6 +389,18 @@ func (c DiffCase) prefixes() []string {
 // covered lists the instances whose keys a Clear of instance i removes: i
 // itself and every instance whose prefix starts with i's prefix (its keys are
 // keys of i's key space too).
+// literalPattern writes s as a redis key pattern that matches exactly s.
+func literalPattern(s string) string {
+	var b []byte
+	for i := 0; i < len(s); i++ {
+		if strings.IndexByte("*?[]\\", s[i]) >= 0 {
+			b = append(b, '\\')
+		}
+		b = append(b, s[i])
+	}
+	return string(b)
+}
+
 func covered(prefixes []string, i int) []int {
 	var out []int
 	for j, p := range prefixes {
@@ -396,10 +441,31 @@ func outcome(err error) string {
 
 func ExecDiff(c DiffCase) *vkit.Result {
 	res := &vkit.Result{}
-	if c.TTL <= 0 || c.Keys < 1 || c.Keys > diffMaxKeys || len(c.Second) > 32 || c.Second == rdsPrefix ||
-		strings.ContainsAny(c.Second, "*?[]\\") {
+	if c.TTL <= 0 || c.TTL2 < 0 || c.Keys < 1 || c.Keys > diffMaxKeys || len(c.Second) > 32 || c.Second == rdsPrefix ||
+		strings.HasPrefix(c.Second, decoyPrefix) || strings.HasPrefix(decoyPrefix, c.Second) && c.Second != "" ||
+		c.Decoy != nil && (c.Decoy.TTL <= 0 || c.Decoy.Size < 0 || c.Decoy.Size > 1<<20) {
 		res.Skip("malformed-case")
 		return res
+	}
+	names := newNamer(c.Names, c.Keys)
+	if names == nil || len(c.Names) > c.Keys {
+		res.Skip("malformed-key-names")
+		return res
+	}
+	// two caches on one server share its key space: a case in which two (cache,
+	// key) pairs mean the same server key compares nothing (cannot happen with
+	// the generated names and prefixes)
+	{
+		full := map[string]bool{}
+		for _, p := range c.prefixes() {
+			for k := 0; k < c.Keys; k++ {
+				if full[p+names.name(k)] {
+					res.Skip("aliasing-key-names")
+					return res
+				}
+				full[p+names.name(k)] = true
+			}
+		}
 	}
 	clk := t0
 	clock := func() int64 { return clk }
@@ -410,10 +476,29 @@ func ExecDiff(c DiffCase) *vkit.Result {
 	prefixes := c.prefixes()
 	var mems, rdss []cache.TTLCache
 	var rs refs
-	for _, p := range prefixes {
-		mems = append(mems, cache.NewTTLMemCache(1<<20, c.TTL))
-		rdss = append(rdss, cache.NewTTLRdsCache(fake, p, c.TTL))
-		rs = append(rs, newRef(c.TTL))
+	var ds *decoys
+	if c.Decoy != nil {
+		ds = &decoys{ctx: ctx, use: c.Decoy.Use}
+		ds.add(cache.NewTTLRdsCache(fake, decoyPrefix, c.Decoy.TTL))
+		ds.add(cache.NewTTLMemCache(c.Decoy.Size, c.Decoy.TTL))
+		res.Class("decoy-instances")
+	}
+	ttls := c.ttls()
+	for i, p := range prefixes {
+		mems = append(mems, cache.NewTTLMemCache(1<<20, ttls[i]))
+		rdss = append(rdss, cache.NewTTLRdsCache(fake, p, ttls[i]))
+		rs = append(rs, newRef(ttls[i]))
+	}
+	if c.Decoy != nil {
+		ds.add(cache.NewTTLMemCache(c.Decoy.Size+1, c.Decoy.TTL))
+		ds.add(cache.NewTTLRdsCache(fake, decoyPrefix+"2:", c.Decoy.TTL+1))
+	}
+	if len(ttls) > 1 && ttls[0] != ttls[1] {
+		res.Class("second-cache:other-default-ttl")
+	}
+	keyName := names.name
+	if names.describe() != "" {
+		res.Class("special-key-names")
 	}
 	switch {
 	case c.Second == "":
@@ -424,6 +509,9 @@ func ExecDiff(c DiffCase) *vkit.Result {
 	default:
 		res.Class("second-cache:unrelated-prefix")
 	}
+	if strings.ContainsAny(c.Second, "*?[]\\") {
+		res.Class("second-cache:prefix-with-pattern-characters")
+	}
 	vr := newValuer()
 	var log []string
 	fail := func(site string, step int, format string, a ...any) *vkit.Result {
@@ -431,8 +519,8 @@ func ExecDiff(c DiffCase) *vkit.Result {
 		if len(l) > 60 {
 			l = l[len(l)-60:]
 		}
-		return res.Failf(site, "step [%d]: %s\ndefault-ttl=%d prefixes=%q history (mem | rds): %s\nlast redis commands: %s",
-			step, fmt.Sprintf(format, a...), c.TTL, prefixes, strings.Join(l, "; "), strings.Join(fake.Tail(8), "; "))
+		return res.Failf(site, "step [%d]: %s\ndefault-ttl=%v prefixes=%q;%s history (mem | rds): %s\nlast redis commands: %s",
+			step, fmt.Sprintf(format, a...), ttls, prefixes, names.describe(), strings.Join(l, "; "), strings.Join(fake.Tail(8), "; "))
 	}
 	nt := false
 	name := func(o Op) string {
@@ -453,6 +541,7 @@ func ExecDiff(c DiffCase) *vkit.Result {
 	doGet := func(step int, o Op, site string) bool {
 		want, classes := rs.apply(o, prefixes)
 		classify(classes)
+		ds.mirror(o, keyName(o.Key))
 		mv, merr := mems[o.Inst].Get(ctx, keyName(o.Key), getOpts(o)...)
 		rv, rerr := rdss[o.Inst].Get(ctx, keyName(o.Key), getOpts(o)...)
 		mo, ro := outcome(merr), outcome(rerr)
@@ -501,6 +590,7 @@ func ExecDiff(c DiffCase) *vkit.Result {
 			}
 			want, classes := rs.apply(o, prefixes)
 			classify(classes)
+			ds.mirror(o, keyName(o.Key))
 			merr := mems[o.Inst].Set(ctx, keyName(o.Key), v, setOpts(o)...)
 			rerr := rdss[o.Inst].Set(ctx, keyName(o.Key), v, setOpts(o)...)
 			log = append(log, fmt.Sprintf("[%d] %s -> %s | %s", i, name(o), outcome(merr), outcome(rerr)))
@@ -513,6 +603,7 @@ func ExecDiff(c DiffCase) *vkit.Result {
 			}
 		case "remove":
 			rs.apply(o, prefixes)
+			ds.mirror(o, keyName(o.Key))
 			merr := mems[o.Inst].Remove(ctx, keyName(o.Key))
 			rerr := rdss[o.Inst].Remove(ctx, keyName(o.Key))
 			log = append(log, fmt.Sprintf("[%d] %s -> %s | %s", i, name(o), outcome(merr), outcome(rerr)))
@@ -523,7 +614,7 @@ func ExecDiff(c DiffCase) *vkit.Result {
 			_, classes := rs.apply(o, prefixes)
 			classify(classes)
 			// how a complete SCAN of the prefix is paged right now (labels only)
-			layout := fake.ScanLayout(prefixes[o.Inst] + "*")
+			layout := fake.ScanLayout(literalPattern(prefixes[o.Inst]) + "*")
 			withKeys, total := 0, 0
 			for _, n := range layout {
 				total += n
@@ -551,6 +642,20 @@ func ExecDiff(c DiffCase) *vkit.Result {
 			}
 			for _, j := range covered(prefixes, o.Inst) {
 				mems[j].Clear(ctx)
+			}
+			// single keys of the other caches that happen to start with the cleared prefix as strings (a key named "[k]0"
+			// under "c05:" lies under "c05:[") are on the server what the cleared cache owns: they go too
+			for j := range prefixes {
+				if j == o.Inst || strings.HasPrefix(prefixes[j], prefixes[o.Inst]) {
+					continue
+				}
+				for k := 0; k < c.Keys; k++ {
+					if strings.HasPrefix(prefixes[j]+names.name(k), prefixes[o.Inst]) {
+						rs[j].apply(Op{Kind: "remove", Key: k})
+						_ = mems[j].Remove(ctx, names.name(k))
+						res.Class("clear-covers-single-keys-of-another-cache")
+					}
+				}
 			}
 			rdss[o.Inst].Clear(ctx)
 			log = append(log, fmt.Sprintf("[%d] %s scan pages %v", i, name(o), layout))
@@ -583,7 +688,7 @@ func ExecDiff(c DiffCase) *vkit.Result {
 	return res
 }
 
-const ruleDiff = "rapid: default ttl in {1,3,10}, 1..12 keys (small counts weighted), the fake's SCAN shape (page size in {1,2,3,10} slots per call - whatever COUNT the client sends, it is a hint -, 0..4 keys of a foreign prefix up front, optionally another foreign key after every 1st..3rd new key, holes reused or not), in 3/7 of the cases a second redis-backed cache on the same fake server (prefix unrelated / extending the first cache's prefix / a prefix of it) with an in-memory cache of its own, every element addressed to one of them; 1..40 independently drawn elements with the same mix, value kinds (unique, empty, nil, long, one slice under several keys) and scripted shapes as part mem but restricted as the property says - positive ttls only (WithTTL in {1,2,3,5,10}, update-ttl in {0=default,1,2,5,10}, 1/6 of either a long one up to MaxInt64), keep-ttl only on keys the reference knows to be live, Advance amounts bumped so that the clock never equals a pending deadline (just before / just past the nearest deadline are drawn on purpose) and never lies between the 292 years a time.Duration can carry to Redis and the in-memory deadline of a longer ttl; inadmissible ops produced by shrinking are skipped and counted. The same history is applied to NewTTLMemCache(2^20) and NewTTLRdsCache(fake redis.Cmdable with Redis semantics on the same virtual clock, overflow-free); Clear is drawn at 3% plus a scripted shape (Set many keys with ttl 10, Clear, Get the last and the first, Set must-not-exist the last) at 1% per element, so that the prefix regularly spans several SCAN pages when Clear runs (classes clear-spans-several-scan-pages, clear-first-scan-page-empty, clear-empty-scan-page-in-the-middle); a Clear of one cache clears the in-memory side of exactly the caches whose prefix starts with its prefix. Oracle: identical ok / AlreadyExists / hit / miss outcome and identical value at every step and in a final probe of every key of every cache; every key the fake holds outside the caches' prefixes is still there after each Clear and at the end. Non-trivial: some Get or must-not-exist Set happens on a key whose ttl has elapsed, or a hit happens after the original deadline thanks to update-ttl; distinct = distinct case JSON"
+const ruleDiff = "rapid: default ttl in {1,3,10}, 1..12 keys (small counts weighted), the fake's SCAN shape (page size in {1,2,3,10} slots per call - whatever COUNT the client sends, it is a hint -, 0..4 keys of a foreign prefix up front, optionally another foreign key after every 1st..3rd new key, holes reused or not), in 3/7 of the cases a second redis-backed cache on the same fake server (prefix unrelated / extending the first cache's prefix / a prefix of it) with an in-memory cache of its own and, two times out of three, a default ttl of its own (1..100), every element addressed to one of them; special key names as in part mem (one quarter of the cases; the same names in every cache; keys are data to the server, only the prefix is a pattern); in a fifth of the cases bystander instances (a redis-backed cache under the prefix zz: on the same server and an in-memory one, built before the caches under test, two more after them, default ttl 1..86400 of their own, half of the time every keyed call applied to them first); 1..40 independently drawn elements with the same mix, value kinds (unique, empty, nil, long, one slice under several keys) and scripted shapes as part mem but restricted as the property says - positive ttls only (WithTTL in {1,2,3,5,10}, update-ttl in {0=default,1,2,5,10}, 1/6 of either a long one up to MaxInt64), keep-ttl only on keys the reference knows to be live, Advance amounts bumped so that the clock never equals a pending deadline (just before / just past the nearest deadline are drawn on purpose) and never lies between the 292 years a time.Duration can carry to Redis and the in-memory deadline of a longer ttl; inadmissible ops produced by shrinking are skipped and counted. The same history is applied to NewTTLMemCache(2^20) and NewTTLRdsCache(fake redis.Cmdable with Redis semantics on the same virtual clock, overflow-free); Clear is drawn at 3% plus a scripted shape (Set many keys with ttl 10, Clear, Get the last and the first, Set must-not-exist the last) at 1% per element, so that the prefix regularly spans several SCAN pages when Clear runs (classes clear-spans-several-scan-pages, clear-first-scan-page-empty, clear-empty-scan-page-in-the-middle); a Clear of one cache clears the in-memory side of exactly the caches whose prefix starts with its prefix. Oracle: identical ok / AlreadyExists / hit / miss outcome and identical value at every step and in a final probe of every key of every cache; every key the fake holds outside the caches' prefixes is still there after each Clear and at the end. Non-trivial: some Get or must-not-exist Set happens on a key whose ttl has elapsed, or a hit happens after the original deadline thanks to update-ttl; distinct = distinct case JSON"
 
 var PartDiff = &vkit.Part[DiffCase]{
 	Property: Property, Name: "diff",
